@@ -70,7 +70,9 @@ def layouts(rng, n, types=None, maxrr=4, **lay):
         res.append((m, b, r))
     return res
 
-DELTAS = [-2, -1, 1, 2, 8, -8, 255, -255]
+# small steps, a whole octet, and every single bit of a length octet / the high bits of a two-octet length (a mask that is one
+# bit short shows only for the delta that sets exactly that bit)
+DELTAS = [-2, -1, 1, 2, 8, -8, 255, -255, 4, 16, 32, 64, -64, 128, 256, 4096, 16384, 32768]
 
 def length_mutants(b, r, rng, per=None):
     """every count/length field changed by every delta (or a sample of `per` of them)"""
